@@ -244,7 +244,7 @@ func c13CLI(c *Ctx, n int) error {
 		}{"disk0-stale-output", func(s *SchedConfig) {}}, struct {
 			name string
 			f    func(*SchedConfig)
-		}{"env-vary", func(s *SchedConfig) {}})
+		}{"env-vary", func(s *SchedConfig) { s.EnvMode = "vary" }})
 		for k, cf := range cfgs {
 			cfg := s0()
 			cfg.Seed = SubSeed(seed, cf.name, k)
